@@ -126,6 +126,24 @@ def gclass_stream(ck):
     ck.coverage['generic_class_stream'] = {'cases': n, 'outcomes': hist}
 
 
+def corner_stream(ck):
+    """C08, wrapper half: keyword calls on callables that trip the source-text / receiver heuristics of the wrapper"""
+    n = ck.run_impl('w_checker', [{'obs': 'corner', 'size': 1}], shards=1)[0]['size']
+    res = ck.run_impl('w_checker', [{'obs': 'corner', 'i': i} for i in range(n)], shards=1)
+    hist = {}
+    for i, r in enumerate(res):
+        if r is None or 'error' in r:
+            ck.oblige('impl-worker:corner', 'correspondence', False, str(r))
+            continue
+        ck.note_case('corner-%d' % i, nontrivial=True)
+        hist[r['name']] = OUT_NAMES.get(r['out'], str(r['out']))
+        if r['out'] in (4, 5):
+            ck.violation(f'{r.get("exc")} escaped from the wrapper: ' + r['name'],
+                         {'obs': 'corner', 'i': i, 'stream': 'corner', 'name': r['name'], 'exc_class': (r.get('exc') or '').split(':')[0]},
+                         stream='corner', extra={'impl': r}, matcher=matcher)
+    ck.coverage['wrapper_corner_table'] = hist
+
+
 def has_abc(a):
     if not isinstance(a, list):
         return False
@@ -138,6 +156,8 @@ def matcher(f, case):
     m = f.get('matcher', {})
     if m.get('id') == 'abc_spelled_generic':
         return has_abc(case.get('reified', case).get('ann'))
+    if m.get('id') == 'corner_call':
+        return case.get('obs') == 'corner' and case.get('name') in m.get('names', []) and case.get('exc_class') == m.get('exc_class')
     return False
 
 
